@@ -9,6 +9,7 @@ import (
 	"go/token"
 	"go/types"
 	"os"
+	"path/filepath"
 	"sort"
 	"strings"
 	"time"
@@ -60,6 +61,10 @@ func Load(arch string) (*Program, error) {
 		Dir:   repoDir(),
 		Tests: false,
 		Env:   env,
+		// synthetic, in-memory only: reference every instantiation of the generic
+		// narrowing helpers so that go/ssa builds their bodies (LIT4). Nothing is
+		// written to the repository and nothing here is ever executed.
+		Overlay: instantiationOverlay(repoDir()),
 	}
 	pkgs, err := packages.Load(cfg, "./...")
 	if err != nil {
@@ -458,4 +463,35 @@ func (p *Program) FileOf(rel, base string) (*ast.File, *packages.Package, error)
 		}
 	}
 	return nil, nil, fmt.Errorf("anchor: file %s/%s not found", rel, base)
+}
+
+var overlayIntTypes = []string{"int", "int8", "int16", "int32", "int64", "uint", "uint8", "uint16", "uint32", "uint64", "uintptr"}
+
+func instantiationOverlay(repo string) map[string][]byte {
+	var a, b strings.Builder
+	a.WriteString("package narrow\n\nvar fpsaInstances = [...]any{\n")
+	for _, to := range overlayIntTypes {
+		for _, from := range overlayIntTypes {
+			fmt.Fprintf(&a, "\tToInteger[%s, %s],\n", to, from)
+		}
+	}
+	a.WriteString("}\n")
+	b.WriteString("package fhirconv\n\nimport fpsadtpb \"github.com/google/fhir/go/proto/google/fhir/proto/r4/core/datatypes_go_proto\"\n\nvar fpsaInstances = [...]any{\n")
+	for _, to := range overlayIntTypes {
+		for _, from := range []string{"Integer", "UnsignedInt", "PositiveInt"} {
+			fmt.Fprintf(&b, "\tToInteger[%s, *fpsadtpb.%s],\n", to, from)
+		}
+	}
+	b.WriteString("}\n")
+	return map[string][]byte{
+		filepath.Join(repo, "internal", "narrow", "zz_fpsa_instances.go"):   []byte(a.String()),
+		filepath.Join(repo, "internal", "fhirconv", "zz_fpsa_instances.go"): []byte(b.String()),
+	}
+}
+
+func setWordBits(arch string) {
+	wordBits = 64
+	if arch == "386" || arch == "arm" {
+		wordBits = 32
+	}
 }
